@@ -202,6 +202,29 @@ func ZZ_C09_Reset() {
 	zzsym.Cover("reset-done")
 }
 
+// Reset after enough insertions to have built skip-list towers (with the code's fixed random sequence
+// the 5th inserted node is the first tall one), then refill and look up: no stale link may survive.
+func ZZ_C09_ResetAfterTowers() {
+	K := zzsym.Param("K")
+	db := NewMemDB(64, 8)
+	m := &zzModel{}
+	for i := 0; i < K; i++ {
+		db.Put([]byte{byte('a' + i)}, zzsym.Bytes("v", 1))
+	}
+	db.Reset()
+	zzsym.Assert(db.Len() == 0, "Reset empties the buffer")
+	for i := 0; i < K; i++ {
+		k := []byte{byte('a' + i)}
+		v := zzsym.Bytes("w", 1)
+		db.Put(k, v)
+		m.put(k, v)
+	}
+	q := zzKeyBytes("q", 1)
+	zzCheckGet(db, m, q)
+	zzCheckScan(db, m)
+	zzsym.Cover("reset-towers-done")
+}
+
 func ZZ_C09_witness() {
 	db := NewMemDB(64, 8)
 	k := zzKeyBytes("k", 2)
